@@ -6,7 +6,7 @@ import subprocess
 import time
 from concurrent.futures import ThreadPoolExecutor
 
-from lib import common as C, core, gen
+from lib import common as C, core, gen, gen_threads
 from checks import c20
 
 PROP = "C03"
@@ -106,18 +106,61 @@ CYCLIC_PRINT = [
 ]
 
 
+def load_known_all():
+    """open known findings of this property: the shared file plus the per-agent files known_findings.<agent>.jsonl"""
+    import glob
+    import json
+    out = list(C.load_known(PROP))
+    for p in sorted(glob.glob(os.path.join(C.VERIF, "known_findings.*.jsonl"))):
+        for line in open(p):
+            line = line.strip()
+            if line and not line.startswith("#"):
+                j = json.loads(line)
+                if j.get("property") == PROP and not j.get("fixed"):
+                    out.append(j)
+    return out
+
+
+def shared_container_fault(src, outcome):
+    """Known-finding class `shared-script-container-written-by-threads`, decided on the input AND on the fault:
+    (1) the script binds a top-level name to a map or set, starts threads (spawn / go) and somewhere writes that container
+    (index assignment or a mutating method); (2) the process died of a concurrent-map fault and the goroutine that was running
+    is inside a method of object.Map / object.Set - the script's own container - and not inside the VM."""
+    import re
+    if not (outcome.startswith("FATAL") and "concurrent map" in outcome and " FRAMES " in outcome):
+        return False
+    frames = outcome.split(" FRAMES ", 1)[1].split(" < ")
+    own = [f for f in frames if not f.startswith("runtime.") and not f.startswith("internal/")]
+    if not own or not re.match(r"object\.\(\*(Map|Set)\)\.", own[0]):
+        return False
+    if not re.search(r"\bspawn\(|\bgo\s+func|\.spawn\(", src):
+        return False
+    for m in re.finditer(r"(?m)^(\w+) := (\{|set\(|map\()", src):
+        name = re.escape(m.group(1))
+        if re.search(r"\b%s\[[^\]]*\]\s*(=|\+=|-=)[^=]" % name, src) or re.search(r"\b%s\.(add|update|delete|clear|pop|remove|set|setdefault)\(" % name, src):
+            return True
+    return False
+
+
 def set_limits():
     resource.setrlimit(resource.RLIMIT_AS, (12 * 1024 ** 3, 12 * 1024 ** 3))
 
 
-def run_isolated(exe, sources, per_input_timeout=40):
-    """Run sources through the child; restart after a death / hang. Returns list of outcome strings."""
+def stress_line(src, mods, reps):
+    """input line of c03obs for a script that is evaluated `reps` times and imports the modules `mods` (name -> source)"""
+    return "@ %d %s%s" % (reps, src.encode("utf-8", "surrogateescape").hex(),
+                          "".join(" %s=%s" % (m, t.encode("utf-8").hex()) for m, t in sorted(mods.items())))
+
+
+def run_isolated(exe, sources, per_input_timeout=40, raw=False):
+    """Run sources through the child; restart after a death / hang. Returns list of outcome strings.
+    raw: the entries are input lines of c03obs already (see stress_line)."""
     results = [None] * len(sources)
     i = 0
     while i < len(sources):
         p = subprocess.Popen([exe], stdin=subprocess.PIPE, stdout=subprocess.PIPE, stderr=subprocess.PIPE, preexec_fn=set_limits)
         base = i
-        data = "".join(s.encode("utf-8", "surrogateescape").hex() + "\n" for s in sources[base:]).encode()
+        data = "".join((s if raw else s.encode("utf-8", "surrogateescape").hex()) + "\n" for s in sources[base:]).encode()
 
         import threading
 
@@ -158,11 +201,22 @@ def run_isolated(exe, sources, per_input_timeout=40):
         p.wait()
         err = b""
         try:
-            err = p.stderr.read()[-600:]
+            err = p.stderr.read()
         except Exception:
             pass
         if current is not None and results[current] is None:
-            results[current] = "FATAL rc=%s %s" % (p.returncode, err.decode("utf-8", "replace").split("\n")[0][:200])
+            etext = err.decode("utf-8", "replace")
+            fatal = [l for l in etext.split("\n") if l.startswith("fatal error") or l.startswith("panic:") or l.startswith("runtime:") or "signal " in l]
+            # the frames of the goroutine that was running when the runtime gave up
+            frames = []
+            at = etext.find("[running]")
+            if at >= 0:
+                import re
+                frames = [re.sub(r"\([^()]*\)$", "", l.strip()).replace("github.com/risor-io/risor/", "")
+                          for l in etext[at:].split("\n")[1:40] if l and not l.startswith("\t") and not l.startswith("goroutine")][:8]
+            results[current] = "FATAL rc=%s %s" % (p.returncode, ((fatal[0] if fatal else etext[-600:].split("\n")[0])[:200]))
+            if frames:
+                results[current] += " FRAMES " + " < ".join(frames)
             died = True
         if not died and all(r is not None for r in results[base:]):
             break
@@ -240,6 +294,16 @@ def run(res):
     inputs.append(("thread:big-stack", "t := spawn(func() { return [" + ", ".join(["1"] * 3000) + "] })\nt.wait()"))
     inputs.append(("thread:nested", "func f(n) { return f(n+1) }\nt := spawn(func() { return spawn(f, 0).wait() })\nt.wait()"))
     inputs.append(("thread:in-callback", "func f(n) { return f(n+1) }\n[1, 2].each(func(x) { spawn(f, x).wait() })"))
+    # threads that exercise, in parallel, what the VM and its clones set up lazily (code of literals at their first call, imports,
+    # callbacks, error paths), each script evaluated several times; and threads writing one script-level container
+    extra = {}        # index in inputs -> (modules, repetitions)
+    nstress, reps = (96, 6) if tier == "quick" else (4000, 8)
+    for src, mods, tags in gen_threads.gen_scripts(rng, nstress):
+        extra[len(inputs)] = (mods, reps)
+        inputs.append(("threads:stress:" + "+".join(sorted(set(tags))), src))
+    for label, src in gen_threads.shared_container_scripts():
+        extra[len(inputs)] = ({}, 3)
+        inputs.append(("threads:shared-container:" + label, src))
     for label, s in CYCLIC:
         inputs.append(("cyclic:" + label, s))
     for label, s in CYCLIC_PRINT:
@@ -287,8 +351,13 @@ def run(res):
     shards = [order[s::nsh] for s in range(nsh)]
     outcomes = [None] * len(inputs)
 
+    def line_of(k):
+        if k in extra:
+            return stress_line(inputs[k][1], extra[k][0], extra[k][1])
+        return inputs[k][1].encode("utf-8", "surrogateescape").hex()
+
     def work_shard(idx):
-        r = run_isolated(exe, [inputs[k][1] for k in idx])
+        r = run_isolated(exe, [line_of(k) for k in idx], raw=True)
         return idx, r
     with ThreadPoolExecutor(max_workers=nsh) as ex:
         for idx, r in ex.map(work_shard, shards + [[k] for k in cyc]):
@@ -299,8 +368,9 @@ def run(res):
     hist = {}
     stage_hist = {}
     distinct = set()
-    for (kind, src), o in zip(inputs, outcomes):
-        kk = kind.split(":")[0]
+    known_ids = set(kf.get("id") for kf in load_known_all())
+    for k_in, ((kind, src), o) in enumerate(zip(inputs, outcomes)):
+        kk = kind.split(":")[0] if not kind.startswith("threads:s") else ":".join(kind.split(":")[:2])
         hist[kk] = hist.get(kk, 0) + 1
         if o is None:
             o = "NO-RESULT"
@@ -316,16 +386,28 @@ def run(res):
                               "bound: fatal stack overflow of the embedding process (e.g. `l := [1]; l.append(l); l == l`); "
                               "printing / stringifying such a container is guarded and is checked")
             continue
-        oracle.append({"kind": "oracle-violation", "input_kind": kind, "source": src if len(src) < 4000 else src[:2000] + " ...[%d chars]" % len(src),
-                       "outcome": o[:400],
+        if "shared-script-container-written-by-threads" in known_ids and shared_container_fault(src, o):
+            res.known_finding("several threads of one script writing the same script-level map or set (m[k] = v, s.add(x), update, delete) end the "
+                              "embedding process with Go's `fatal error: concurrent map writes`: object.Map / object.Set are unsynchronised "
+                              "(e.g. `m := {}; for i := range 8 { spawn(func(k) { for j := range 3000 { m[string(j)] = k } }, i) }`)")
+            continue
+        v = {"kind": "oracle-violation", "input_kind": kind, "source": src if len(src) < 4000 or k_in in extra else src[:2000] + " ...[%d chars]" % len(src),
+             "outcome": o[:700]}
+        if k_in in extra:
+            v["modules"], v["evaluations_per_input"] = extra[k_in]
+        oracle.append(v)
+        v.update({
                        "why": "the embedding API did not return normally: " + ("the process died" if o.startswith("FATAL") else
                                                                               "no answer within the time limit (infinite loop)" if o == "HANG" else
-                                                                              "a Go panic propagated to the caller")})
+                                                                              "a Go panic propagated to the caller")
+                  + (" (the script was evaluated up to %d times: whether its threads collide depends on the schedule)" % extra[k_in][1] if k_in in extra else "")})
     cov["evaluations"] = len(inputs)
     cov["distinct_nontrivial"] = len(distinct)
     cov["rule"] = ("token soup over the real token alphabet plus builtin names, single-token mutants and truncations at token "
                    "boundaries of generated valid programs, and %d hand-written hostile scripts (deep nesting, deep recursion, deep and "
-                   "cyclic data, wrong-arity callbacks, faulting builtins); each input goes through parser.Parse, the error renderers, "
+                   "cyclic data, wrong-arity callbacks, faulting builtins), generated multi-thread scripts (3-12 threads started by spawn / go / f.spawn, nested; "
+                   "each defines and first-calls many function literals, nested literals, closure factories, callbacks of builtins, imports builtin and "
+                   "local modules, raises and catches errors, while the main thread does the same; each evaluated several times); each input goes through parser.Parse, the error renderers, "
                    "Program.String, compiler.Compile, risor.Eval with the default globals (minus the modules that reach the real "
                    "machine) and the host-side Inspect/Interface/Equals/HashKey of the result, in child processes under a memory limit "
                    "and a watchdog; a Go panic escaping an API call, the death of the child or a hang is a violation. "
@@ -357,5 +439,10 @@ def replay(data):
     exe, err = C.go_build("c03obs")
     src = data.get("source")
     if exe and src:
-        print(run_isolated(exe, [src]))
+        if data.get("evaluations_per_input"):
+            o = run_isolated(exe, [stress_line(src, data.get("modules") or {}, 5 * int(data["evaluations_per_input"]))], raw=True)
+        else:
+            o = run_isolated(exe, [src])
+        print(o)
+        return 1 if (o[0] or "").startswith("FATAL") or o[0] == "HANG" or "GOPANIC" in (o[0] or "") else 0
     return 0
